@@ -145,7 +145,15 @@ string *parse_command_adjectiv_id_list() { return ({ }); }
 string object_name(object ob) { while (1) ; return "x"; }
 #endif
 int valid_link(string from, string to) { rec("VL " + from + " " + to); return 1; }
-int valid_bind(object binder, object old_owner, object new_owner) { return 1; }
+// valid_bind answers: 1 (default), 0, E (raise an error); set at run time through set_vb (C20)
+string vbans;
+void set_vb(string a) { vbans = a; uid_log = 1; }
+int valid_bind(object binder, object old_owner, object new_owner) {
+  if (uid_log) rec("VB " + file_name(binder) + " " + file_name(new_owner) + " ans=" + (vbans ? vbans : "1"));
+  if (vbans == "0") return 0;
+  if (vbans == "E") error("valid_bind bomb\n");
+  return 1;
+}
 #ifdef LOGERR_LOADS
 // a master that needs a helper object to log a compile error: the helper is loaded (from its saved binary) in the middle of
 // the compilation that reports the error
